@@ -412,9 +412,11 @@ DoPush(st, op) ==
            [Out0 EXCEPT !.par = u, !.expin = st.cfg.l_par])
 
 DoUsePar(st, op) ==
-  IF op.kind \in {"absent", "foreign_prefix"}
+  \* foreign_prefix_full: a request_uri that is not a pushed one NEXT TO a complete plain request (the foreign URI is not this
+  \* endpoint's business for a non-OpenID request): a plain request, refused when pushing is enforced
+  IF op.kind \in {"absent", "foreign_prefix", "foreign_prefix_full"}
   THEN IF st.cfg.par_enf THEN Fail(st, "invalid_request", "par_enforced")
-       ELSE IF op.kind = "absent"
+       ELSE IF op.kind \in {"absent", "foreign_prefix_full"}
             THEN HandlerPhase(st, [client |-> op.client, rtype |-> "code", req |-> {"a"}, grant |-> {"a"}, aud |-> {},
                                    redirSent |-> TRUE, pkce |-> "none"])
             ELSE Fail(st, "unsupported_response_type", "response_type_missing")
